@@ -28,6 +28,9 @@ RULE = ("tables: corpus (uniform / shorter last / LONGER last / one-bin / variab
         "categories in bin order, alphabetical, reversed, with unused extras, subset} x {positions int64,int32,uint32} x {given,reversed,shuffled order} x {1 chunk, 2 chunks, singletons}; "
         "every loader (sanitize_records, cload pairs, cload tabix incl. nproc 2 / max-split, load bg2) on inputs with runs of 1-3 consecutive records "
         "whose chrom1 and/or chrom2 is unlisted (same or different unlisted names) at the start / middle / end, interleaved with listed ones; "
+        "LARGE genomes with few bins (cumulative length just below / at / above 2^31 and 2^32, chromosome lengths up to 2^31-1, fixed and variable bins) with the "
+        "bin table handed over with int64 / int32 / uint32 coordinates and as returned by Cooler.bins()[:], records on every bin edge; "
+        "histories: consecutive ingestions in one process against bin tables that agree in chromosomes and bin count but differ in boundaries; "
         "sanitize_pixels on random bin-id records; aggregate_records on every accepted output; CLI: cload pairs / load bg2 / load coo on "
         "small files with several chunks. One evaluation = one API call or CLI run compared with the model and the oracle. "
         "non-trivial = at least one retained record on a table with >=2 bins; distinct by full input")
@@ -952,6 +955,8 @@ BINS_DTYPES = ["int32", "cooler", "int64", "uint32", "int32", "cooler"]
 def big_genome_cases(rng, widths, thorough):
     """boundary sweep + random record sets + pixels + text loaders on a large genome, the bin table handed over in every coordinate dtype"""
     cases = gen_exhaustive_edges(widths)
+    if not thorough:
+        cases = cases[rng.randrange(2):: 2]
     cases += gen_record_cases(rng, widths, 20 if thorough else 8, not thorough)
     cases += gen_pixel_cases(rng, widths, 2)
     for i, c in enumerate(cases):
